@@ -262,6 +262,14 @@ class Check:
                             argv += ['-o', '@' + outf]
                         runs.append({'cmd': 'merge', 'set': name, 'inc': inc, 'ns': ns, 'files': files, 'argv': argv, 'outfile': outf,
                                      'order': sorted(files, reverse=True), 'bystanders': BYSTANDERS})
+                    if name in ('valid', 'failing', 'odd-names'):
+                        # run from inside the directory, every path a bare relative name (-o too: no directory part at all)
+                        for outf in (None, 'bare-out.xml', './dot-out.xml'):
+                            argv = ['merge', '-f'] + [f for f in sorted(files, reverse=True)] + (['--incomplete'] if inc else []) + (['-n'] if ns else [])
+                            if outf:
+                                argv += ['-o', outf]
+                            runs.append({'cmd': 'merge', 'set': name + '@cwd', 'inc': inc, 'ns': ns, 'files': files, 'argv': argv, 'outfile': outf,
+                                         'order': sorted(files, reverse=True), 'bystanders': BYSTANDERS, 'cwd': True})
         # the same collections kept in a bucket: merge -b bucket -p ro/ [-s .mos.xml]
         for name in ('valid', 'incomplete', 'failing', 'mixed-ids', 'no-create', 'equal-ids'):
             files = sets[name]
@@ -320,7 +328,7 @@ class Check:
         pool = file_pool(rng)
         druns = self.detect_runs(tier, rng, pool) + self.s3_detect_runs(tier, rng, pool)
         mruns = self.merge_runs(tier, rng)
-        res = run_cli([{'files': r['files'], 'argv': r['argv'], 'outfile': r.get('outfile'), 's3': r.get('s3'), 'bystanders': r.get('bystanders', {})} for r in druns + mruns])
+        res = run_cli([{'files': r['files'], 'argv': r['argv'], 'outfile': r.get('outfile'), 's3': r.get('s3'), 'bystanders': r.get('bystanders', {}), 'cwd': r.get('cwd')} for r in druns + mruns])
         vio, dis, sigs, samples = [], [], set(), []
         for r, o in zip(druns, res[:len(druns)]):
             what = self.judge_detect(r, o, pool)
@@ -363,7 +371,7 @@ class Check:
             i_status = 0 if o['status'] is None else o['status']
             i_doc = (o['outfile'] if r['outfile'] else o['stdout'].rstrip('\n')) if i_status == 0 else None
             if what:
-                vio.append({'what': what, 'case': {'kind': 'cli', 'argv': r['argv'], 'files': r['files'], 's3': r.get('s3'), 'outfile': r.get('outfile'), 'bystanders': r.get('bystanders', {})}, 'impl': [o['status'], o['stderr'][:300]], 'expected': [m_status]})
+                vio.append({'what': what, 'case': {'kind': 'cli', 'argv': r['argv'], 'files': r['files'], 's3': r.get('s3'), 'outfile': r.get('outfile'), 'bystanders': r.get('bystanders', {}), 'cwd': r.get('cwd')}, 'impl': [o['status'], o['stderr'][:300]], 'expected': [m_status]})
             if (i_status, i_doc) != (m_status, m_doc):
                 dis.append({'case': {'kind': 'cli', 'argv': r['argv'], 'files': r['files']}, 'impl': [i_status, (i_doc or '')[:300]], 'model': [m_status, (m_doc or '')[:300]], 'explained': bool(what)})
         return {'evaluations': len(res), 'distinct': len(sigs), 'rule': self.rule, 'samples': samples,
@@ -373,9 +381,9 @@ class Check:
         case = rep.get('case') or {}
         if 'argv' not in case:
             return {'violation': False, 'note': str(rep.get('detail'))}
-        o = run_cli([{'files': case['files'], 'argv': case['argv'], 'outfile': case.get('outfile'), 's3': case.get('s3'), 'bystanders': case.get('bystanders', {})}])[0]
+        o = run_cli([{'files': case['files'], 'argv': case['argv'], 'outfile': case.get('outfile'), 's3': case.get('s3'), 'bystanders': case.get('bystanders', {}), 'cwd': case.get('cwd')}])[0]
         if case['argv'][0] == 'merge':
-            order = [a[1:] for a in case['argv'] if a.startswith('@') and a[1:] in case['files']]
+            order = [a[1:] for a in case['argv'] if a.startswith('@') and a[1:] in case['files']] or [a for a in case['argv'] if a in case['files']]
             if case.get('s3') is not None:
                 order = [k[3:] for k in case['s3'] if k.startswith('ro/') and k[3:] in case['files']]
             run = {'files': case['files'], 'set': 'replay', 'outfile': case.get('outfile'),
